@@ -49,6 +49,11 @@ type tsdHistory struct {
 	interleaved           int // reads in turns by different owners that are both in the middle of a block
 	interleavedAfterDrain int // ... after some reader of this case had been drained and closed
 	drainedClosed         int
+
+	// damaged blocks (damaged_test.go)
+	damaged        []*storedBlock // damaged variants with a readable time range: owners may bind to them
+	lastBad        map[*encoding.TSDDecoder]bool
+	intactAfterBad int
 }
 
 func (h *tsdHistory) note(f string, a ...any) { h.log = append(h.log, fmt.Sprintf(f, a...)) }
@@ -101,6 +106,7 @@ func (h *tsdHistory) read(t *rapid.T, dec *encoding.TSDDecoder, how string) {
 	sb := h.stored[rapid.IntRange(0, len(h.stored)-1).Draw(t, h.l("blk"))]
 	p := genReadPlan(t, h.l("p"), sb.blk, true)
 	resetDecoder(dec, sb.blk, sb.data, sb.withTime, rapid.Bool().Draw(t, h.l("viaRange")))
+	h.noteBinding(dec, sb.blk)
 	execRead(t, dec, sb.blk, p)
 	sb.reads++
 	if h.usedDec[dec] {
@@ -270,6 +276,9 @@ func TestTSDReuseHistory(t *testing.T) {
 				h.note("badReset(%d)", len(short))
 				h.classes["bad-reset"]++
 			},
+			// a truncated / damaged block in between (damaged_test.go)
+			"damagedRead":  h.damagedRead,
+			"damagedRead2": h.damagedRead,
 			"releaseHeldDecoder": func(t *rapid.T) {
 				if len(h.heldDec) == 0 {
 					t.Skip("no held decoder")
@@ -315,7 +324,15 @@ func TestTSDReuseHistory(t *testing.T) {
 		h.acquire(dec, "final sweep")
 		for i, sb := range h.stored {
 			path := fullPaths[rapid.IntRange(0, len(fullPaths)-1).Draw(t, fmt.Sprintf("sweep%d", i))]
+			if len(h.damaged) > 0 && rapid.IntRange(0, 3).Draw(t, fmt.Sprintf("sweepBad%d", i)) == 0 {
+				// ... with a damaged block in between
+				bad := h.damaged[rapid.IntRange(0, len(h.damaged)-1).Draw(t, fmt.Sprintf("sweepBadBlk%d", i))]
+				resetToDamaged(dec, bad, true, false)
+				h.noteBinding(dec, bad.blk)
+				readDamaged(t, "final sweep, damaged block in between", dec, path, bad.blk.n()+2)
+			}
 			resetDecoder(dec, sb.blk, sb.data, sb.withTime, false)
+			h.noteBinding(dec, sb.blk)
 			execRead(t, dec, sb.blk, readPlan{Path: path, StopAfter: -1, Lo: 1, Hi: 1})
 		}
 		encoding.ReleaseTSDDecoder(dec)
@@ -358,6 +375,7 @@ func TestTSDReuseHistory(t *testing.T) {
 		if h.reusedRd > 0 {
 			cl = append(cl, "reused-decoder")
 		}
+		cl = append(cl, fmt.Sprintf("intact-after-damaged=%d", min(h.intactAfterBad, 4)))
 		for _, sb := range h.stored {
 			if sb.reused {
 				cl = append(cl, "reused-encoder")
